@@ -80,12 +80,21 @@ def _case(draw):
     datapos = [i for i, r in enumerate(table["records"]) if r][1:]
     if table["records"][0] and draw(st.integers(0, 4)) == 2:
         datapos = [0]   # the header row itself (physical line 0) is scanned and aborts
+    cause = draw(st.sampled_from(sorted(CAUSES) + ["extfn", "shortrow"]))
+    how = draw(st.sampled_from(["comment", "policy"]))
+    method = draw(st.sampled_from(list(real.METHODS)))
+    if cause == "shortrow":
+        # raised from limit_collection(), outside the match expressions: needs a policy with raise,
+        # a serial method and a data line (constructed, not rejected)
+        how = "policy"
+        method = draw(st.sampled_from(list(real.SERIAL)))
+        datapos = [i for i, r in enumerate(table["records"]) if r][1:]
     return {"table": table, "members": members,
             "abort_member": draw(st.integers(0, n - 1)),
             "abort_line": draw(st.sampled_from(datapos)),
-            "cause": draw(st.sampled_from(sorted(CAUSES) + ["extfn"])),
-            "how": draw(st.sampled_from(["comment", "policy"])),
-            "method": draw(st.sampled_from(list(real.METHODS))),
+            "cause": cause,
+            "how": how,
+            "method": method,
             "next_method": draw(st.sampled_from(list(real.METHODS))),
             "all_points": False,
             "policies": draw(st.sampled_from([["raise", "collect"], ["raise", "collect"], ["collect"]])),
@@ -102,6 +111,12 @@ def poison(table, cause, line):
     import copy
     t = copy.deepcopy(table)
     if cause == "extfn":
+        return t
+    if cause == "shortrow":
+        # the row at the abort line loses its last cell; collect(<last header>) then raises from
+        # limit_collection(), i.e. outside the match expressions
+        if len(t["records"][line]) > 1:
+            t["records"][line] = t["records"][line][:-1]
         return t
     comp, good, bad = CAUSES[cause]
     # appended as the LAST column so that index-based header references of the generated
@@ -146,7 +161,12 @@ def one_point(case, sb, am, line):
     cause = case["cause"]
     table = poison(case["table"], cause, line)
     records = table["records"]
-    comp = ["f", "vfboom", [], [["t", line]]] if cause == "extfn" else CAUSES[cause][0]
+    if cause == "shortrow":
+        if line == 0 or case["how"] != "policy" or case["method"] not in real.SERIAL or len(case["table"]["cols"]) < 2:
+            return None, None   # needs a data line, a policy with raise and a serial method
+        comp = ["f", "collect", [], [["t", case["table"]["cols"][-1]["name"]]]]
+    else:
+        comp = ["f", "vfboom", [], [["t", line]]] if cause == "extfn" else CAUSES[cause][0]
     members = case["members"]
     method = case["method"]
     problems = []
@@ -157,8 +177,11 @@ def one_point(case, sb, am, line):
     if line == 0:
         # scan from line 0: the header row offends (its 'e' cell is the text 'e'; vfboom(0) fires there)
         members = [dict(m, scan=("*" if i == am else m["scan"])) for i, m in enumerate(members)]
+    if cause == "shortrow":
+        # the aborting member must return the short row for limit_collection() to see it
+        members = [dict(m, prog={"comps": [["f", "yes", [], []]], "mode": "AND"}) if i == am else m for i, m in enumerate(members)]
     texts = [member_text(m, "", comp if i == am else None, raise_comment=(i == am and case["how"] == "comment"),
-                         stop_after=(line if (i == am and case.get("stop_after")) else None)) for i, m in enumerate(members)]
+                         stop_after=(line if (i == am and case.get("stop_after") and cause != "shortrow") else None)) for i, m in enumerate(members)]
     # standalone references for the members that do not abort (policy without raise for them is irrelevant: they have no error)
     alone = []
     for i, m in enumerate(members):
